@@ -80,7 +80,7 @@ class Sim:
         self.ev("server", op=op, n=n, lat=out.get("lat", 0.0), code=out.get("code"),
                 reply=(out["reply"].hex() if out.get("reply") is not None else None),
                 items=[i.hex() for i in out.get("items", [])] if "items" in out else None,
-                cut=out.get("cut"))
+                cut=out.get("cut"), **({"lost_body": True} if out.get("lost_body") else {}))
         out["_op"], out["_n"] = op, n
         return out
 
